@@ -8,6 +8,8 @@ import LabtechModel.Driver.HistCmd
 import LabtechModel.Driver.ParamsCmd
 import LabtechModel.Driver.IntrCmd
 import LabtechModel.Driver.FtokCmd
+import LabtechModel.Driver.OsetCmd
+import LabtechModel.Driver.ClsresCmd
 /-! Line-protocol driver: one command per input line, one observation line per command. -/
 
 def step (line : String) : String :=
@@ -23,6 +25,8 @@ def step (line : String) : String :=
   | "CTASKS" :: rest => Lt.Params.Cmd.handle "CTASKS" rest
   | "INTR" :: rest => Lt.IntrCmd.handle rest
   | "FTOK" :: rest => Lt.FtokCmd.handle rest
+  | "OSET" :: rest => Lt.OsetCmd.handle rest
+  | "CLSRES" :: rest => Lt.ClsresCmd.handle rest
   | _ => "bad-op"
 
 partial def loop (h : IO.FS.Stream) (out : IO.FS.Stream) : IO Unit := do
